@@ -506,8 +506,13 @@ def write_evidence(prop, tier, seed, total, wall, nviol, extra=None):
         "wall_s": round(wall, 3),
         "violations": int(nviol),
     }
-    os.makedirs(os.path.join(VERIF, "evidence"), exist_ok=True)
-    with open(os.path.join(VERIF, "evidence", prop + ".json"), "w") as f:
+    # evidence describes /repo: a run pointed at a scratch copy (mutants, seeded changes,
+    # refactorings: SIMFILE_REPO) or asked for with VERIF_EVIDENCE_DIR writes elsewhere
+    evdir = os.environ.get("VERIF_EVIDENCE_DIR") or (
+        os.path.join(VERIF, "evidence") if os.path.realpath(REPO) == "/repo"
+        else os.path.join(VERIF, "out", "evidence-scratch"))
+    os.makedirs(evdir, exist_ok=True)
+    with open(os.path.join(evdir, prop + ".json"), "w") as f:
         json.dump(ev, f, indent=1, sort_keys=True, default=repr)
 
 
